@@ -16,7 +16,7 @@ META = {
         "the chosen entry. NOT decided: that Bernoulli/choose_weighted realise those probabilities (rand contracts), i.e. the frequencies themselves."),
     "rules": {
         "R13.1": "WeightedPair::new: sum = checked_add(a.weight(), b.weight()); None -> Err(WeightSumOverflow(a_w,b_w)) via ?; distr = Bernoulli::from_ratio(a_w, sum).ok(); fields (a,b,distr,weight_sum) = (a,b,distr,sum); weight() returns weight_sum",
-        "R13.2": "WeightedPair::select: None -> ZeroWeight; sample(rng)==true -> a.select, false -> b.select; errors wrapped A/B then Selector",
+        "R13.2": "Weighted::select: weight 0 -> ZeroWeight, otherwise one delegation to the item (the clause of C06/R06.2, restated); WeightedPair::select: None -> ZeroWeight; sample(rng)==true -> a.select, false -> b.select; errors wrapped A/B then Selector",
         "R13.3": "WithWeightedItem impls build WeightedPair::new(self, item); Result impl: self? first; with_item_and_weight = with_weighted_item(Weighted::new(item, weight)); Weighted::new/weight store/return weight",
         "R13.4": "DynWeighted::select: choose_weighted(selectors, rng, |(_, w)| *w); WeightError propagated; chosen.0 performs the one selection; new/with_selector store (Box(selector), weight); with_selector only pushes that entry onto self.selectors and returns self",
     },
@@ -30,6 +30,9 @@ POP = ("param", 2)
 
 
 def check(ctx):
+    # a member of weight zero is never used: the clause on Weighted::select is C06's (R06.2); restated here under C13's own rule
+    from . import rules_c06 as _c06
+    _c06.check_weighted_select(ctx, "R13.2", "R13.2")
     from .common import override_audit
     ctx.floor('R13.1', override_audit(ctx, 'R13.1', ('ec_core::weighted::with_weighted_item::WithWeightedItem',)), 1, 'provided methods of WithWeightedItem (override audit)')
     from .common import shadowing_audit
